@@ -148,6 +148,22 @@ class ArrayExpr(SingletonExpr):
             raise NotImplementedError(f"{type(self).__name__} must implement _layer or lower before materialization")
         return Expr.__dask_graph__(expr)
 
+    def _graph_if_unlowered(self):
+        """For ``_layer`` implementations that pair blocks by position and so
+        are only valid once ``_lower`` has aligned their inputs: when this node
+        is asked for its layer while still in unlowered form (a walk of the raw
+        tree, e.g. ``dask.optimize``), the whole materialized graph pinned to
+        this node's keys; None when the node is already in lowered form."""
+        lowered = self._lower()
+        if lowered is None or lowered._name == self._name:
+            return None
+        try:
+            return ArrayExpr._layer(self)
+        except NotImplementedError:
+            # materializing changed nothing after all: the node is as lowered
+            # as it gets (e.g. unknown chunk sizes never unify to a fixpoint)
+            return None
+
     def _operands_for_repr(self):
         return []
 
